@@ -50,13 +50,7 @@ class C03(nestedcheck.NestedCheck):
         NStream('exhaustive-single<=4', enum=enum_single, thorough=(32, 400), others=1, tiers=('thorough',)),
         NStream('pairs<=5', enum=enum_pairs, thorough=(64, 420), others=1, tiers=('thorough',)),
     )
-    theorems = ('TM.C03_P4_exits', 'TM.C03_P4_enters', 'TM.C03_P1_pass', 'TM.C03_P1', 'TM.C03_dispatch_global_only',
-                'TM.C03_P3_pass', 'TM.C03_P3_complete_pass', 'TM.C03_P5_pass_result', 'TM.C03_P2_source_was_active',
-                'TM.C03_P5', 'TM.C03_P5_unhandled_flat', 'TM.C03_exec_le_one_of_chain', 'TM.C03_counterexample_redispatch',
-                'TM.C03_counterexample_result_overwritten', 'TM.C03_counterexample_stale_source',
-                'TM.C03_counterexample_reentered_source', 'TM.C03_counterexample_nested_lists',
-                'TM.C03_counterexample_local_effect', 'TM.C03_counterexample_suppressed_region',
-                'TM.C03_full_counterexample', 'TM.C02_exit_children_first', 'TM.C02_new_configuration')
+    theorems = ('TM.C03_P4_exits', 'TM.C03_P4_enters', 'TM.C03_P1_pass', 'TM.C03_P1', 'TM.C03_dispatch_global_only', 'TM.C03_P2', 'TM.C03_P3_pass', 'TM.C03_P3_complete_pass', 'TM.C03_P5_pass_result', 'TM.C03_P5', 'TM.C03_P5_unhandled_flat', 'TM.C03_exec_le_one_of_chain', 'TM.C03_regression_redispatch', 'TM.C03_regression_result_overwritten', 'TM.C03_regression_stale_source', 'TM.C03_regression_reentered_source', 'TM.C03_regression_nested_lists', 'TM.C03_regression_local_effect', 'TM.C03_counterexample_suppressed_region', 'TM.C03_counterexample_pass_order', 'TM.C03_counterexample_related_passes', 'TM.C03_counterexample_entered_during_event', 'TM.C03_full_counterexample')
     rule = ('a case = (state tree, placement of transitions, condition valuation, history); non-trivial iff at least '
             'one transition with a state change executed on HierarchicalMachine; distinct by the hash of the encoded case')
     trusted = (
